@@ -60,6 +60,7 @@ fn main() {
         "C09" => props::c09::run(&ctx),
         "C10" => props::c10::run(&ctx),
         "C11" => props::c11::run(&ctx),
+        "C12" => props::c12::run(&ctx),
         "C14" => props::c14::run(&ctx),
         "C15" => props::c15::run(&ctx),
         "C16" => props::c16::run(&ctx),
